@@ -745,13 +745,8 @@ func c12RealMixed(e *env) error {
 			}
 			var im *sx.Node
 			if errs[i] != nil {
-				// the location a converter-level line error names: the converter itself (package path + interface name), or
-				// the file for a variables block
-				convLoc := raw.PackagePath + "." + raw.InterfaceName
-				if vars {
-					convLoc = "var definition"
-				}
-				im = lineErrToSx(errs[i], convLoc, "-")
+				// the location a converter-level line error names: where the converter's comment stands
+				im = lineErrToSx(errs[i], raw.Converter.Location, "-")
 			} else if len(convs[i].Methods) == 1 {
 				im = sx.H("ok", commonToSx(&convs[i].Methods[0].Common))
 			} else {
